@@ -84,7 +84,8 @@ def partial_sites(f):
             elif isinstance(n.func, ast.Name) and n.func.id == 'ord' and n.args:
                 a = n.args[0]
                 base = unparse(a.value) if isinstance(a, ast.Subscript) else unparse(a)
-                guarded = any((unparse(t) == 'len(%s) == 0' % base and p is False) or (unparse(t) in ('len(%s) > 0' % base, 'len(%s) >= 1' % base) and p is True) for t, p, k in path_condition(n))
+                from sa.logic import implied_atoms as _ia
+                guarded = any((unparse(t) == 'len(%s) == 0' % base and p is False) or (unparse(t) in ('len(%s) > 0' % base, 'len(%s) >= 1' % base) and p is True) or (unparse(t) == base and p is True) for t, p in _ia(path_condition(n)))
                 if not guarded:
                     out.append(Site('TypeError', n, 'ord() of a slice that may be empty', f))
             elif isinstance(n.func, ast.Attribute) and n.func.attr == 'randrange':
@@ -106,14 +107,16 @@ def partial_sites(f):
                         for g in par.generators:
                             comp_conds.extend((c, True, 'comp') for c in g.ifs)
                     q = par
-                for t, p, k in list(path_condition(n)) + comp_conds:
-                    for c in ast.walk(t):
-                        if p and isinstance(c, ast.Call) and isinstance(c.func, ast.Attribute) and c.func.attr in ('startswith', 'endswith') and unparse(c.func.value) == recv and c.args and isinstance(c.args[0], ast.Constant) \
-                                and isinstance(c.args[0].value, str) and needle in c.args[0].value and _conjunct_of(c, t):
-                            fact = True
-                        if p and isinstance(c, ast.Compare) and len(c.ops) == 1 and isinstance(c.ops[0], ast.In) and isinstance(c.left, ast.Constant) and isinstance(c.left.value, str) and needle in c.left.value \
-                                and unparse(c.comparators[0]) == recv and _conjunct_of(c, t):
-                            fact = True
+                from sa.logic import implied_atoms
+                for c, truth in implied_atoms(list(path_condition(n)) + comp_conds):
+                    if not truth:
+                        continue
+                    if isinstance(c, ast.Call) and isinstance(c.func, ast.Attribute) and c.func.attr in ('startswith', 'endswith') and unparse(c.func.value) == recv and c.args and isinstance(c.args[0], ast.Constant) \
+                            and isinstance(c.args[0].value, str) and needle in c.args[0].value:
+                        fact = True
+                    if isinstance(c, ast.Compare) and len(c.ops) == 1 and isinstance(c.ops[0], ast.In) and isinstance(c.left, ast.Constant) and isinstance(c.left.value, str) and needle in c.left.value \
+                            and unparse(c.comparators[0]) == recv:
+                        fact = True
                 if not fact:
                     out.append(Site('ValueError', n, 'str.%s without a containment fact' % n.func.attr, f))
         elif isinstance(n, ast.Subscript) and isinstance(n.ctx, ast.Load):
